@@ -126,6 +126,14 @@ func (c *conn) Ping(ctx context.Context) error      { return nil }
 
 func (c *conn) QueryContext(ctx context.Context, q string, args []driver.NamedValue) (driver.Rows, error) {
 	s := c.s
+	if len(args) > 0 {
+		// what the real driver would put on the wire (client-side binding)
+		wire, berr := Bind(q, args)
+		if berr != nil {
+			return nil, berr // the driver refuses before anything is sent: nothing to log
+		}
+		q = wire
+	}
 	s.mu.Lock()
 	n := len(s.Log)
 	s.Log = append(s.Log, Stmt{N: n, SQL: q})
